@@ -625,7 +625,9 @@ def twin_of(rnd, td, name):
 # (enum encoding, encoding override on the unit variant, shape it is turned into): the unit variant's
 # own container kind differs from the enum's, then the documented edit "unit -> variant with optional fields"
 TRANSP = []   # transparent newtypes around nil-capable types (filled from special_types)
-FORCED_CHAINS = [(None, "map", "named"), (None, "map", "tuple"), ("array", "map", "named"), ("map", "array", "named"), ("map", "array", "tuple"), ("map", None, "named"), (None, None, "tuple")]
+# 4th / 5th element: encoding of the evolving struct and which optional is added at a gap index in step 2
+FORCED_CHAINS = [(None, "map", "named", "array", 0), (None, "map", "tuple", "map", 0), ("array", "map", "named", "array", 1), ("map", "array", "named", "map", 2),
+                 ("map", "array", "tuple", None, 3), ("map", None, "named", "map", 1), (None, None, "tuple", "array", 4)]
 
 
 def gen_chain(rnd, cid, pool, force=None):
@@ -653,6 +655,8 @@ def gen_chain(rnd, cid, pool, force=None):
     enum_versions.append(e)
     s = TypeDef("C%dS0" % cid)
     s.encoding = rnd.choice([None, "array", "map"])
+    if force:
+        s.encoding = force[3]
     s.tag = rnd.choice(TAGS) if rnd.random() < 0.15 else None
     s.shape = "named"
     n = rnd.choice([1, 2, 3, 4])
@@ -687,7 +691,7 @@ def gen_chain(rnd, cid, pool, force=None):
             edit = "unit_to_fields"
         if force and step == 2:
             edit = "add_gap"
-            newt = [BYTES_OPT_VEC, NIL_FNS, opt(U8), BYTES_OPT_VEC][cid % 4]
+            newt = [BYTES_OPT_VEC, NIL_FNS, opt(U8), opt(STRING), BYTES_OPT_VEC][force[4]]
         newt = rnd.choice([opt(U8), opt(STRING), opt(vec(U16)), NIL_WITH, opt(I64), opt(bmap(BOOL)), BYTES_OPT_VEC, NIL_FNS, alias(opt(U32))])
         if edit == "add_high":
             ns.fields.append(Field("a%d" % step, max(used) + rnd.choice([1, 1, 2, 5]), newt, tag=rnd.choice([None, None, 9, 300])))
